@@ -1043,6 +1043,27 @@ theorem cons_save (s : State) (t : Nat) (hinv : Inv s t) (hc : Cons s) : Cons (s
   · rw [← h2, eq_of_nodup_id _ hinv.nodup i j hi hj h1]
   · exact hc j hj τ h1
 
+theorem lookupStored_some_of_mem (st : List (Nat × Nat)) (k τ : Nat) (h : (k, τ) ∈ st) :
+    ∃ τ', lookupStored st k = some τ' := by
+  induction st with
+  | nil => cases h
+  | cons x rest ih =>
+    obtain ⟨a, b⟩ := x
+    simp only [lookupStored]
+    split
+    · exact ⟨b, rfl⟩
+    · rename_i e
+      rcases List.mem_cons.mp h with h1 | h1
+      · exact absurd (Prod.mk.inj h1).1.symm e
+      · exact ih h1
+
+/-- after `save-state` every live instance that has a session is externalised with its own timeout: once
+it has timed out and been swept, the next request restores it (`C17_restore`) -/
+theorem saveState_lookup (s : State) (t : Nat) (hinv : Inv s t) (hc : Cons s) (i : Inst) (hi : i ∈ s.insts)
+    (hs : i.sess = true) : lookupStored (saveState s).1.stored i.id = some i.timeout := by
+  obtain ⟨τ', hτ'⟩ := lookupStored_some_of_mem _ _ _ (saveState_stores s i hi hs)
+  rw [hτ', cons_save s t hinv hc i (by rw [saveState_insts]; exact hi) τ' hτ']
+
 theorem replaceInst_id (n i : Inst) : (replaceInst n i).id = i.id := by
   unfold replaceInst; split
   · rename_i e; exact e.symm
@@ -1632,6 +1653,7 @@ example : let s := run2 ⟨true⟩ State.init [(0, .old (.create 1500000)), (0, 
 #print axioms alive_step2
 #print axioms C17_never_early2
 #print axioms C17_stop_refused
+#print axioms saveState_lookup
 #print axioms C17_destroy_balance
 #print axioms C17_destroyed_at_most_once
 #print axioms dropped_old
